@@ -235,7 +235,7 @@ fn shard(ctx: &Ctx, s: usize, flavours: &[Flavour], rep: &mut Report) {
             }
         }
         // joint x/y sweep, random pairs
-        let n = ctx.n(40, 400);
+        let n = ctx.n(40, 8000);
         for _ in 0..n {
             let pv = [rng.range(-32, 31) as i32, rng.range(-32, 31) as i32];
             let cv = [rng.range(-32, 31) as i32, rng.range(-32, 31) as i32];
@@ -257,7 +257,7 @@ fn shard(ctx: &Ctx, s: usize, flavours: &[Flavour], rep: &mut Report) {
         let k = s - 128;
         let flavour = flavours[k % 2];
         let Some(fx) = fixture(&mut rng, flavour, rep) else { return };
-        let decomps = ctx.n(3, 12);
+        let decomps = ctx.n(3, 150);
         for sum in (-128 + 16 * (k as i32 / 2) * 2)..(-128 + 16 * (k as i32 / 2) * 2 + 32) {
             if sum > 124 {
                 continue;
@@ -309,7 +309,7 @@ fn shard(ctx: &Ctx, s: usize, flavours: &[Flavour], rep: &mut Report) {
         // part (c): neighbour configurations
         let k = s - 144;
         let flavour = flavours[k % 2];
-        let n = ctx.n(600, 6000);
+        let n = ctx.n(600, 60000);
         for it in 0..n {
             let mbw = 1 + rng.below(4) as usize;
             let mbh = 1 + rng.below(3) as usize;
